@@ -307,6 +307,11 @@ def run(ctx):
                     ctx.finding(f"alias:{a}", f"alias .{a} differs from base .{b} for stem {stem!r}: {ra} vs {rb}",
                                 {"stem": stem, "alias": a, "base": b, "alias_result": ra, "base_result": rb})
 
+    # environment dimension: routing must not depend on logging level, thread, time zone or cwd
+    import common
+    sample = paths[:200] + [p for p in paths if p.lower().endswith((".docx", ".pdf", ".tar.gz", ".unknown"))][:100] + paths[-200:]
+    common.env_sweep(ctx, "routing", lambda p: impl_case(router, p), sample)
+
     pre = "From S2T Require Import Lib.PyStr C07.Model C07.Corr Gen.C07Tables.\n"
     okc, failing, log = coq_eval_shards(ctx, "corr", pre, "(corr_case T)", cases, shard=500,
                                         ty="str * option str * bool * option (str * str)")
@@ -334,45 +339,64 @@ def run(ctx):
                  lambda d, n: d + "/" + n.replace("/", "//"),
                  lambda d, n: d + "/" + n.replace("/", "/./"),
                  lambda d, n: d + "/sub.d/../" + n]
-    with tempfile.TemporaryDirectory(dir="/var/tmp") as td:
-        for nme in names:
-            os.makedirs(os.path.dirname(os.path.join(td, nme)), exist_ok=True)
-            open(os.path.join(td, nme), "wb").write(b"hello")
-        os.makedirs(os.path.join(td, "sub.d"), exist_ok=True)
-        # symbolic links: dispatch must follow the path string handed in, not the link target's name
-        links = [("link-notes.txt", "noext"), ("link-index.html", "f.TXT"), ("link-payload.bin", "a.docx"),
-                 ("link-sheet.xlsx", "sub.d/j.md"), ("sub.d/link-up.pdf", "../d.htm")]
-        for ln, target in links:
-            try:
-                os.symlink(target, os.path.join(td, ln))
-            except OSError:
-                pass
-        cases_rf = [(n, sp) for n in names for sp in spellings] + [(ln, spellings[0]) for ln, _ in links
-                                                                    if os.path.lexists(os.path.join(td, ln))]
-        for nme, spell in cases_rf:
-            fp = spell(td, nme)
-            called = []
-            _, _, want, _ = impl_case(router, fp)
-            orig = router._get_extractor
+    names += ["legacy.doc", "legacy.xls", "legacy.pps", "legacy.dot", "book.xla", "r.rtf", "m.eml", "p.7z", "q.zip", "t.ods"]
+    # the CONTENT of the file must not take part in the routing decision ("the extension decides"): the same names are
+    # tried with payloads carrying the magic numbers of other formats
+    contents = {"text": b"hello", "zip": b"PK\x03\x04" + bytes(26), "pdf": b"%PDF-1.4\n", "ole": bytes.fromhex("d0cf11e0a1b11ae1") + bytes(504),
+                "rtf": b"{\\rtf1 x}", "7z": b"7z\xbc\xaf\x27\x1c" + bytes(26), "html": b"<html><body>x</body></html>", "empty": b""}
+    # record which extractor FUNCTION is entered: every registry function is replaced (in its module) by a recorder
+    invoked = []
+    saved = []
+    for k, (mod, fn) in router._EXTRACTOR_REGISTRY.items():
+        m_ = importlib.import_module(mod)
+        orig_f = getattr(m_, fn)
+        if getattr(orig_f, "_c07_recorder", False):
+            continue
 
-            def spy(ft, _orig=orig):
-                f = _orig(ft)
-                called.append((f.__module__, f.__name__))
-                return f
-            router._get_extractor = spy
-            try:
-                try:
-                    for _ in sharepoint2text.read_file(fp):
-                        break
-                except Exception:  # noqa
-                    pass
-            finally:
-                router._get_extractor = orig
-            got = called[0] if called else None
-            ctx.case(("read_file", nme), True, kind="read_file")
-            if got != want:
-                ctx.finding(f"read_file-dispatch:{nme}", f"read_file dispatched {nme} to {got}, get_extractor says {want}",
-                            {"name": nme, "read_file": got, "get_extractor": want})
+        def rec(file_like, path=None, _n=(mod, fn), **kw):
+            invoked.append(_n)
+            return iter(())
+        rec.__module__, rec.__name__, rec._c07_recorder = mod, fn, True
+        saved.append((m_, fn, orig_f))
+        setattr(m_, fn, rec)
+    try:
+        with tempfile.TemporaryDirectory(dir="/var/tmp") as td:
+            os.makedirs(os.path.join(td, "sub.d"), exist_ok=True)
+            links = [("link-notes.txt", "noext"), ("link-index.html", "f.TXT"), ("link-payload.bin", "a.docx"),
+                     ("link-sheet.xlsx", "sub.d/j.md"), ("sub.d/link-up.pdf", "../d.htm")]
+            for ci, (cname, payload) in enumerate(contents.items()):
+                for nme in names:
+                    os.makedirs(os.path.dirname(os.path.join(td, nme)), exist_ok=True)
+                    open(os.path.join(td, nme), "wb").write(payload)
+                # symbolic links: dispatch must follow the path string handed in, not the link target's name
+                if ci == 0:
+                    for ln, target in links:
+                        try:
+                            os.symlink(target, os.path.join(td, ln))
+                        except OSError:
+                            pass
+                cases_rf = [(n, sp) for n in names for sp in (spellings if ci == 0 else spellings[:1])] + [
+                    (ln, spellings[0]) for ln, _ in links if os.path.lexists(os.path.join(td, ln))]
+                for nme, spell in cases_rf:
+                    fp = spell(td, nme)
+                    del invoked[:]
+                    _, _, want, _ = impl_case(router, fp)
+                    err = None
+                    try:
+                        for _ in sharepoint2text.read_file(fp):
+                            break
+                    except Exception as e:  # noqa
+                        err = type(e).__name__
+                    got = invoked[0] if invoked else None
+                    ctx.case(("read_file", nme, cname), True, kind="read_file:" + cname)
+                    if got != want or len(invoked) > 1:
+                        ctx.finding(f"read_file-dispatch:{nme}:{cname}", f"read_file entered {invoked or err} for {nme} holding "
+                                    f"{cname} content, get_extractor says {want}",
+                                    {"name": nme, "content": cname, "payload": payload, "read_file_entered": list(invoked),
+                                     "read_file_error": err, "get_extractor": want})
+    finally:
+        for m_, fn, orig_f in saved:
+            setattr(m_, fn, orig_f)
 
 
 META = {
